@@ -183,8 +183,9 @@ func (z *E6) MulBy014(c0, c1, c4 *fp.Element) *E6 {
 	b.MulBy1(c4)
 	d.Add(c1, c4)
 
+	c0Copy := *c0 // c0 may point into z.B1, which is written next
 	z.B1.Add(&z.B1, &z.B0)
-	z.B1.MulBy01(c0, &d)
+	z.B1.MulBy01(&c0Copy, &d)
 	z.B1.Sub(&z.B1, &a)
 	z.B1.Sub(&z.B1, &b)
 	z.B0.MulByNonResidue(&b)
@@ -205,8 +206,9 @@ func (z *E6) MulBy01(c0, c1 *fp.Element) *E6 {
 	b.MulByNonResidue(&z.B1)
 	d.SetOne().Add(c1, &d)
 
+	c0Copy := *c0 // c0 may point into z.B1, which is written next
 	z.B1.Add(&z.B1, &z.B0)
-	z.B1.MulBy01(c0, &d)
+	z.B1.MulBy01(&c0Copy, &d)
 	z.B1.Sub(&z.B1, &a)
 	z.B1.Sub(&z.B1, &b)
 	z.B0.MulByNonResidue(&b)
